@@ -175,6 +175,13 @@ func (fr *Frame) modWalk(n ast.Node, ms *modSet, info *types.Info, visiting map[
 			}
 		case *ast.IncDecStmt:
 			fr.modLhs(x.X, ms, info)
+		case *ast.SendStmt:
+			if t := info.TypeOf(x.Chan); t != nil {
+				if ct, ok := t.Underlying().(*types.Chan); ok {
+					hn, hs := fr.eng.chanHeap(ct.Elem())
+					ms.touch(hn, hs)
+				}
+			}
 		case *ast.RangeStmt:
 			if x.Key != nil {
 				fr.modLhs(x.Key, ms, info)
